@@ -560,3 +560,17 @@ func (c *Ctx) calleeSource(info *types.Info, defs map[types.Object][]ast.Expr, c
 	}
 	return fd.Body, cinfo, bind
 }
+
+// goTarget returns the body run by a go statement: a function literal, a local closure, or a function or
+// method declared in the module (with its own type information).
+func (c *Ctx) goTarget(info *types.Info, defs map[types.Object][]ast.Expr, g *ast.GoStmt) (*ast.BlockStmt, *types.Info) {
+	if lit := localClosure(info, defs, g.Call.Fun); lit != nil {
+		return lit.Body, info
+	}
+	if f := callee(info, g.Call); f != nil {
+		if fd, p := c.DeclOf(f); fd != nil && fd.Body != nil {
+			return fd.Body, p.TypesInfo
+		}
+	}
+	return nil, nil
+}
